@@ -10,6 +10,11 @@
  *   base       one "set token" per future, owned by one thread: exactly one set by the client.
  *              Initialisation variants: none (as tests/class/future.c), init without / with a
  *              completion callback.  get (blocking busy-wait) and is_ready by anybody.
+ *              Knob dup_set=1 (about 30% of the plans): a base future has b<i>_nset = 2-3 set
+ *              tokens owned by different threads (owner, owner+1, ... modulo the thread count),
+ *              each set with its own fresh value.  The library tolerates it ("Trying to set a base
+ *              future that is already in a ready state" on the silenced stream; the first value is
+ *              kept); this is what exercises the CAS-once of parsec_base_future_set.
  *   countable  `count` set tokens distributed over the threads; exactly `count` sets.
  *   blocking   a thread spends ALL its remaining set tokens before it enters a blocking get, and
  *              every thread spends its remaining tokens at the end of its list; hence there is no
@@ -30,10 +35,23 @@
  * Oracle (this file is uninstrumented; bookkeeping next to a call is atomic with its invoke/return):
  *   wrong-value / value-mismatch   a reader obtains something else than the value set for that
  *                                  future / shape, or two readers of a shape obtain different values;
- *   ready-before-set               ready / value observed although set was not yet invoked
+ *                                  base futures ("accepts ONE value and returns it to EVERY reader"):
+ *                                  a reader (get after is_ready, blocking get, get inside the completion
+ *                                  callback) must obtain a value whose set had been invoked before the
+ *                                  read returned (wrong-value otherwise), and the same value as every
+ *                                  earlier reader of that future (value-mismatch otherwise: the value
+ *                                  never changes once it has been observed).  Which of several sets
+ *                                  wins is not prescribed;
+ *   ready-before-set             ready / value observed although set was not yet invoked
  *                                  (countable: fewer than `count` sets invoked; also for the callback);
  *   not-ready-after-set            is_ready (or get_or_trigger, see below) invoked after the (last)
- *                                  set returned says "not ready";
+ *                                  set returned says "not ready".  Base futures with several sets: the
+ *                                  future is "settled" at the first instant at which at least one set
+ *                                  has returned and no set is in progress (the set that won is among
+ *                                  the returned ones and completed the future, callback included,
+ *                                  before it returned; a set that lost may return earlier than that);
+ *                                  from then on is_ready must say yes and the completion callback must
+ *                                  have run exactly once -- in particular after all sets returned;
  *   shape-fulfilled-twice          the trigger callback runs twice for one future, or a second nested
  *                                  future is set up for a shape that already has one;
  *   callback-count                 a completion callback (base / countable cb_fulfill) or a cleanup
@@ -73,10 +91,11 @@ int shim_fut_release(void *f);
 enum { OP_BSET, OP_BGET, OP_BREADY, OP_CSET, OP_CGET, OP_CREADY, OP_DGET, OP_DCOMPLETE, OP_N };
 static const char *const opnames[] = {"bset", "bget", "bready", "cset", "cget", "cready", "dget", "dcomplete"};
 enum { PR_BGET_WAITED, PR_CSET_CONCURRENT, PR_NESTED, PR_TWO_NESTED, PR_DGET_NULL, PR_NEW_SHAPE_DEFERRED, PR_ASYNC_BY_OTHER,
-       PR_SECOND_REQUESTER, PR_CLEANUP_BY_WORKER, PR_PRESET_READ, PR_TRIGGER_RACE, PR_N };
+       PR_SECOND_REQUESTER, PR_CLEANUP_BY_WORKER, PR_PRESET_READ, PR_TRIGGER_RACE, PR_BSET_OVERLAP, PR_BSET_AFTER_READY, PR_BGET_DURING_DUP, PR_N };
 static const char *const probe_names[] = {"blocking_get_entered_before_set", "countable_sets_overlap", "nested_future_created", "two_nested_futures_on_one_root",
                                           "get_or_trigger_returned_null", "new_shape_deferred_(null_because_other_nested_future_still_generating)", "async_fulfilment_completed_by_other_thread",
-                                          "second_requester_of_a_triggered_shape", "last_reference_dropped_by_worker", "preset_root_read", "two_get_or_trigger_overlap_on_unfulfilled_target"};
+                                          "second_requester_of_a_triggered_shape", "last_reference_dropped_by_worker", "preset_root_read", "two_get_or_trigger_overlap_on_unfulfilled_target",
+                                          "two_sets_of_one_base_future_overlap", "base_set_invoked_on_completed_future", "base_value_read_while_a_further_set_is_pending_or_running"};
 
 #define MAXT 8
 #define MAXB 3
@@ -85,7 +104,10 @@ static const char *const probe_names[] = {"blocking_get_entered_before_set", "co
 #define MAXS 4
 #define MAXVAL 96
 
-typedef struct { parsec_base_future_t *f; int mode, owner, token, set_inv, set_done, cb_calls; void *val; } bf_t;
+#define MAXTOK 3
+/* base future: ntok set tokens (1 unless dup_set); tok_val[k] != NULL <=> the set of token k has been invoked;
+ * n_inv / n_done = sets invoked / returned; settled: see "not-ready-after-set" above; seen = value obtained by the first reader */
+typedef struct { parsec_base_future_t *f; int mode, ntok, tok_owner[MAXTOK], tok_spent[MAXTOK], n_inv, n_done, settled, cb_calls; void *tok_val[MAXTOK], *seen; } bf_t;
 typedef struct { parsec_countable_future_t *f; int count, has_cb, tokens[MAXT + 1], inv, done, inflight, cb_calls; } cf_t;
 typedef struct dnode { parsec_datacopy_future_t *fut; int exists, dead, spec, async, fulfil_calls, trigger_thread, pending, set_inv, set_done, cleanup_calls, readers_inflight; void *val, *first_val; } dnode_t;
 typedef struct {
@@ -114,6 +136,27 @@ static int my_idx(ctx_t *c) { int s = sim_self(); return (s >= 0 && s < 64) ? c-
 static void *fresh(ctx_t *c) { if (c->nvals >= MAXVAL) { c->res->discard = 1; c->res->discard_why = "too-many-values"; return &c->vals[MAXVAL - 1]; } c->vals[c->nvals] = 1000 + c->nvals; return &c->vals[c->nvals++]; }
 static int failed(ctx_t *c) { return c->res->vclass != NULL; }
 
+/* a reader (thread t) of base future i obtained v, just now.  0 = fine */
+static int b_observe(ctx_t *c, int i, void *v, int t, const char *how)
+{
+    bf_t *b = &c->b[i];
+    if (!b->n_inv) { hx_fail(c->res, "ready-before-set", "base future %d: %s returned %p to thread %d before any set was invoked", i, how, v, t); return -1; }
+    int k = 0;
+    while (k < b->ntok && !(b->tok_val[k] && b->tok_val[k] == v)) k++;
+    if (k == b->ntok) {
+        hx_fail(c->res, "wrong-value", "base future %d: %s returned %p to thread %d, which is none of the %d value(s) whose set has been invoked (%p %p %p)", i, how, v, t, b->n_inv,
+                b->tok_val[0], b->ntok > 1 ? b->tok_val[1] : NULL, b->ntok > 2 ? b->tok_val[2] : NULL);
+        return -1;
+    }
+    if (b->seen && b->seen != v) {
+        hx_fail(c->res, "value-mismatch", "base future %d: %s returned %p to thread %d although an earlier reader obtained %p (%d set(s) invoked, %d returned): the future delivered two values", i, how, v, t, b->seen, b->n_inv, b->n_done);
+        return -1;
+    }
+    b->seen = v;
+    if (b->ntok > 1 && b->n_done < b->ntok) sim_probe(PR_BGET_DURING_DUP);
+    return 0;
+}
+
 /* ---------------------------------------------------------------- callbacks (run on sim threads, atomically) */
 static void base_cb(parsec_base_future_t *future, ...)
 {
@@ -121,10 +164,10 @@ static void base_cb(parsec_base_future_t *future, ...)
     if (!c) return;
     for (int i = 0; i < c->nb; i++) if ((void *)c->b[i].f == (void *)future) {
         bf_t *b = &c->b[i];
-        if (++b->cb_calls > 1) { hx_fail(c->res, "callback-count", "completion callback of base future %d ran %d times", i, b->cb_calls); return; }
-        if (!b->set_inv) { hx_fail(c->res, "ready-before-set", "completion callback of base future %d ran before any set", i); return; }
+        if (++b->cb_calls > 1) { hx_fail(c->res, "callback-count", "completion callback of base future %d ran %d times (%d set(s) invoked, %d returned)", i, b->cb_calls, b->n_inv, b->n_done); return; }
+        if (!b->n_inv) { hx_fail(c->res, "ready-before-set", "completion callback of base future %d ran before any set", i); return; }
         void *v = shim_fut_get(future);     /* as tests/class/future.c does inside its callback */
-        if (v != b->val) hx_fail(c->res, "wrong-value", "base future %d: get inside the completion callback returned %p, set value is %p", i, v, b->val);
+        b_observe(c, i, v, my_idx(c), "get inside the completion callback");
         return;
     }
     hx_fail(c->res, "callback-count", "base completion callback ran on an unknown future");
@@ -252,15 +295,23 @@ static void d_nested(parsec_base_future_t **out, ...)
 static void op_bset(ctx_t *c, int t, int i)
 {
     bf_t *b = &c->b[i];
-    if (b->owner != t || !b->token) return;
-    b->token = 0;
-    b->val = fresh(c);
-    b->set_inv = 1;
-    shim_fut_set(b->f, b->val);
-    b->set_done = 1;
-    hx_hash(c->res, 0x100 ^ ((uint64_t)i << 4) ^ ((uint64_t)t << 16));
+    int k = 0;
+    while (k < b->ntok && (b->tok_owner[k] != t || b->tok_spent[k])) k++;
+    if (k == b->ntok) return;       /* thread t has no (more) set token of this future */
+    b->tok_spent[k] = 1;
+    b->tok_val[k] = fresh(c);
+    if (b->n_inv > b->n_done) sim_probe(PR_BSET_OVERLAP);
+    if (b->settled) sim_probe(PR_BSET_AFTER_READY);
+    b->n_inv++;
+    shim_fut_set(b->f, b->tok_val[k]);
+    b->n_done++;
+    hx_hash(c->res, 0x100 ^ ((uint64_t)i << 4) ^ ((uint64_t)t << 16) ^ ((uint64_t)k << 12));
     if (failed(c)) return;
-    if (b->cb_calls != (b->mode == 2)) hx_fail(c->res, "callback-count", "base future %d: set returned, completion callback ran %d time(s), expected %d", i, b->cb_calls, b->mode == 2);
+    if (b->n_done == b->n_inv) {
+        /* no set in progress: the winning set is among the returned ones, so the future is complete */
+        b->settled = 1;
+        if (b->cb_calls != (b->mode == 2)) hx_fail(c->res, "callback-count", "base future %d: %d set(s) invoked and all returned, completion callback ran %d time(s), expected %d", i, b->n_done, b->cb_calls, b->mode == 2);
+    }
 }
 
 static void op_cset(ctx_t *c, int t, int i)
@@ -283,7 +334,7 @@ static void op_cset(ctx_t *c, int t, int i)
 
 static void spend_all(ctx_t *c, int t)
 {
-    for (int i = 0; i < c->nb && !failed(c); i++) op_bset(c, t, i);
+    for (int i = 0; i < c->nb; i++) for (int k = 0; k < c->b[i].ntok && !failed(c); k++) op_bset(c, t, i);
     for (int i = 0; i < c->nc; i++) while (c->c[i].tokens[t] > 0 && !failed(c)) op_cset(c, t, i);
 }
 
@@ -292,22 +343,23 @@ static void op_bget(ctx_t *c, int t, int i)
     bf_t *b = &c->b[i];
     spend_all(c, t);
     if (failed(c)) return;
-    if (!b->set_done) sim_probe(PR_BGET_WAITED);
+    if (!b->n_done) sim_probe(PR_BGET_WAITED);
     void *v = shim_fut_get(b->f);
     hx_hash(c->res, 0x300 ^ ((uint64_t)i << 4) ^ ((uint64_t)t << 16));
-    if (!b->set_inv) { hx_fail(c->res, "ready-before-set", "base future %d: get returned %p to thread %d before set was invoked", i, v, t); return; }
-    if (v != b->val) hx_fail(c->res, "wrong-value", "base future %d: get returned %p to thread %d, the value set is %p", i, v, t, b->val);
+    if (failed(c)) return;
+    b_observe(c, i, v, t, "blocking get");
 }
 
 static void op_bready(ctx_t *c, int t, int i)
 {
     bf_t *b = &c->b[i];
-    int pre = b->set_done;
+    int pre = b->settled;
     int r = shim_fut_is_ready(b->f);
     hx_hash(c->res, 0x400 ^ ((uint64_t)i << 4) ^ ((uint64_t)t << 16) ^ (uint64_t)(r != 0));
-    if (r && !b->set_inv) hx_fail(c->res, "ready-before-set", "base future %d reported ready before set was invoked", i);
-    else if (!r && pre) hx_fail(c->res, "not-ready-after-set", "base future %d: is_ready invoked after set had returned says not ready", i);
-    else if (r && b->set_done) { void *v = shim_fut_get(b->f); if (v != b->val) hx_fail(c->res, "wrong-value", "base future %d: get returned %p, the value set is %p", i, v, b->val); }
+    if (failed(c)) return;
+    if (r && !b->n_inv) hx_fail(c->res, "ready-before-set", "base future %d reported ready before set was invoked", i);
+    else if (!r && pre) hx_fail(c->res, "not-ready-after-set", "base future %d: is_ready invoked after %d set(s) had returned (none in progress) says not ready", i, b->n_done);
+    else if (r) { void *v = shim_fut_get(b->f); if (!failed(c)) b_observe(c, i, v, t, "get after is_ready"); }
 }
 
 static void op_cget(ctx_t *c, int t, int i)
@@ -453,13 +505,28 @@ static void gen(hx_plan_t *p, hx_rng_t *r)
     if (focus == 1) { nb = hx_chance(r, 30) ? nb : 0; nd = hx_chance(r, 30) ? nd : 0; if (!nc) nc = 1; if (T < 3) T = 3; }
     if (focus == 2) { nb = hx_chance(r, 30) ? nb : 0; nc = hx_chance(r, 30) ? nc : 0; if (!nd) nd = 1; }
     if (nb + nc + nd == 0) nd = 1;
+    int dup = hx_chance(r, 30);             /* several sets of one base future (see header) */
+    if (dup) { if (T < 2) T = 2; if (!nb) nb = 1; }
     hx_set_knob(p, "threads", T);
+    hx_set_knob(p, "dup_set", dup);
     hx_set_knob(p, "nb", nb); hx_set_knob(p, "nc", nc); hx_set_knob(p, "nd", nd);
     hx_set_knob(p, "cbdelay", hx_below(r, 4));
     hx_set_knob(p, "main_first", hx_chance(r, 60));
     for (int i = 0; i < nb; i++) {
         kname(kn, "b", i, "mode"); hx_set_knob(p, kn, hx_below(r, 3));
-        kname(kn, "b", i, "owner"); hx_set_knob(p, kn, hx_below(r, T));
+        int owner = (int)hx_below(r, T);
+        kname(kn, "b", i, "owner"); hx_set_knob(p, kn, owner);
+        if (dup) {
+            int ns = hx_chance(r, 15) ? 1 : (int)hx_range(r, 2, MAXTOK);
+            kname(kn, "b", i, "nset"); hx_set_knob(p, kn, ns);
+            /* two sets only race when their owners reach them at about the same time: in 2 of 3 futures
+             * the owners' lists begin with the set (all threads start together), and some other threads'
+             * lists begin with a read, so that a value is observed before a late second store */
+            if (ns > 1 && hx_chance(r, 66)) {
+                for (int k = 0; k < ns && k < T; k++) hx_add_op(p, (owner + k) % T, OP_BSET, i, hx_below(r, 1000), hx_below(r, 1000));
+                for (int t = 0; t < T; t++) if (hx_chance(r, 40)) hx_add_op(p, t, hx_chance(r, 50) ? OP_BGET : OP_BREADY, i, hx_below(r, 1000), hx_below(r, 1000));
+            }
+        }
     }
     for (int i = 0; i < nc; i++) {
         kname(kn, "c", i, "count"); hx_set_knob(p, kn, hx_range(r, 1, 6));
@@ -474,11 +541,11 @@ static void gen(hx_plan_t *p, hx_rng_t *r)
         kname(kn, "d", i, "async"); hx_set_knob(p, kn, hx_chance(r, 25) ? 0 : hx_chance(r, 30) ? 31 : hx_below(r, 32));   /* bit k: shape k asynchronous (bit 0: root) */
     }
     int nops = (int)hx_range(r, 4, 40);
-    int wb = nb ? 10 : 0, wc = nc ? 10 : 0, wd = nd ? 12 : 0;
+    int wb = nb ? (dup ? 20 : 10) : 0, wc = nc ? 10 : 0, wd = nd ? 12 : 0;
     for (int i = 0; i < nops; i++) {
         int t = (int)hx_below(r, T);
         int k = (int)hx_below(r, wb + wc + wd), op;
-        if (k < wb) { int j = (int)hx_below(r, 10); op = j < 3 ? OP_BSET : j < 6 ? OP_BGET : OP_BREADY; }
+        if (k < wb) { int j = (int)hx_below(r, 10); op = j < (dup ? 4 : 3) ? OP_BSET : j < 6 ? OP_BGET : OP_BREADY; }
         else if (k < wb + wc) { int j = (int)hx_below(r, 10); op = j < 5 ? OP_CSET : j < 7 ? OP_CGET : OP_CREADY; }
         else op = hx_chance(r, 75) ? OP_DGET : OP_DCOMPLETE;
         hx_add_op(p, t, op, hx_below(r, 1000), hx_below(r, 1000), hx_below(r, 1000));
@@ -503,6 +570,7 @@ static void run(const hx_plan_t *p, hx_result_t *res)
     if (c.nd > MAXD) c.nd = MAXD;
     c.cbdelay = (int)hx_knob(p, "cbdelay", 0);
     int main_first = (int)hx_knob(p, "main_first", 0);
+    int dup_set = hx_knob(p, "dup_set", 0) != 0;
     for (int i = 0; i < 64; i++) c.idx_of_sim[i] = c.T;
     c.nvals = 1;    /* vals[0] is the dummy argument of countable sets */
     G = &c;
@@ -510,8 +578,14 @@ static void run(const hx_plan_t *p, hx_result_t *res)
     for (int i = 0; i < c.nb; i++) {
         bf_t *b = &c.b[i];
         kname(kn, "b", i, "mode"); b->mode = (int)(labs(hx_knob(p, kn, 0)) % 3);
-        kname(kn, "b", i, "owner"); b->owner = (int)(labs(hx_knob(p, kn, 0)) % c.T);
-        b->token = 1;
+        kname(kn, "b", i, "owner");
+        int owner = (int)(labs(hx_knob(p, kn, 0)) % c.T);
+        kname(kn, "b", i, "nset");
+        long ns = dup_set ? labs(hx_knob(p, kn, 2)) : 1;
+        /* the tokens of one future belong to different threads: at most one per thread */
+        b->ntok = ns < 1 ? 1 : ns > MAXTOK ? MAXTOK : (int)ns;
+        if (b->ntok > c.T) b->ntok = c.T;
+        for (int k = 0; k < b->ntok; k++) b->tok_owner[k] = (owner + k) % c.T;
         b->f = shim_fut_new_base();
         if (b->mode == 1) shim_fut_init_base(b->f, NULL);
         if (b->mode == 2) shim_fut_init_base(b->f, base_cb);
@@ -558,8 +632,10 @@ static void run(const hx_plan_t *p, hx_result_t *res)
     /* quiescent checks by the main thread */
     for (int i = 0; i < c.nb && !failed(&c); i++) {
         bf_t *b = &c.b[i];
-        if (b->token) { b->owner = me; op_bset(&c, me, i); }    /* owner index beyond the thread count (edited plan) */
+        for (int k = 0; k < b->ntok && !failed(&c); k++)
+            if (!b->tok_spent[k]) { b->tok_owner[k] = me; op_bset(&c, me, i); }     /* cannot happen (every worker spends its tokens); be safe */
         if (failed(&c)) break;
+        if (b->n_done != b->ntok || !b->settled) { hx_fail(res, "harness-bug", "base future %d: %d of %d sets performed", i, b->n_done, b->ntok); break; }
         op_bready(&c, me, i);
         if (!failed(&c) && b->cb_calls != (b->mode == 2)) hx_fail(res, "callback-count", "base future %d: completion callback ran %d time(s) in the whole run, expected %d", i, b->cb_calls, b->mode == 2);
     }
